@@ -22,25 +22,10 @@ import (
 )
 
 func main() {
-	if len(os.Args) > 1 && os.Args[1] == "probe" {
-		probe()
-		return
-	}
 	fw.Main("C14", "model_checking", run)
 }
 
-// verdict is what Bindings.tla prints for one shard.
-type verdict struct {
-	Entries, Methods, Units, Expects, Groups, JudgedGroups int
-	KeyWellFormed, NameIdentity, ClassAgrees, VarsByAddress, ConstExact []string
-	NoExtras, WrapperEntry, WrapperForwards, WrapperImplements, Compiles, Inexact, RuneAsInt []string
-	Complete                                                            []struct {
-		Rel       int
-		Plat, Pkg string
-		Name      string
-	}
-	WrapperMismatch []struct{ File, Key, Name string }
-}
+type verdict = bindfacts.Verdict
 
 type shard struct {
 	name    string
@@ -49,8 +34,6 @@ type shard struct {
 }
 
 const (
-	trigRune    = "untyped rune constant"
-	modeRune    = "re-materialised with token INT: same value, but an untyped integer constant (default type int, not rune)"
 	trigInexact = "untyped float constant that is not a dyadic rational"
 	modeInexact = "bound to the binary rounding that fixConst prints, not to exactly its value"
 )
@@ -78,11 +61,6 @@ func (rc *replayCase) matches(inv, key, name, method string) bool {
 		return inv == "Complete" && rc.Key == key && rc.Name == name
 	}
 	return rc.Key == key && rc.Name == name && rc.Method == method
-}
-
-func cfg() []byte {
-	return []byte("SPECIFICATION Spec\nCONSTANTS FactsFile = \"facts.ndjson\" Mode = \"stdlib\"\n" +
-		"INVARIANTS Emit KeyWellFormed NameIdentity ClassAgrees VarsByAddress ConstExact NoExtras Complete WrapperPresent WrapperForwards Compiles\n")
 }
 
 func run(c *fw.Ctx) error {
@@ -245,8 +223,7 @@ func run(c *fw.Ctx) error {
 	var tlcSum time.Duration
 	tot := verdict{}
 	var inexactNames []string
-	inexactChecked, runeChecked := false, false
-	nRune := 0
+	inexactChecked := false
 	for i, r := range results {
 		if r.err != nil {
 			return fmt.Errorf("shard %s: %v", names[i], r.err)
@@ -290,6 +267,7 @@ func run(c *fw.Ctx) error {
 		report("VarsByAddress", v.VarsByAddress)
 		report("ConstExact", v.ConstExact)
 		report("NoExtras", v.NoExtras)
+		report("EmissionAgrees", v.EmissionAgrees)
 		report("WrapperPresent", v.WrapperEntry)
 		report("WrapperForwards", v.WrapperForwards)
 		report("WrapperImplements", v.WrapperImplements)
@@ -305,29 +283,6 @@ func run(c *fw.Ctx) error {
 				continue
 			}
 			c.Fail(fmt.Sprintf("%s %s[%s]", m.File, m.Key, m.Name), "WrapperPresent: interface type and wrapper entry do not come in pairs", replayCase{Invariant: "WrapperPresent", File: m.File, Key: m.Key, Name: m.Name})
-		}
-		for _, id := range v.RuneAsInt {
-			e := entries[id]
-			if e == nil {
-				c.SpecError("TLC names fact %s that the harness did not write", id)
-				continue
-			}
-			nRune++
-			if !rc.matches("RuneAsInt", e.Key, e.Name, "") {
-				continue
-			}
-			if !runeChecked && e.Plat == curPlat() {
-				runeChecked = true
-				r := c.Native("package main\n\nimport (\n\t\"fmt\"\n\tp \""+e.KeyPath+"\"\n)\n\nfunc main() { x := p."+e.Name+"; fmt.Printf(\"%T\", x) }\n", 10*time.Second)
-				if r.BuildOK && r.Stdout != "int32" {
-					c.SpecError("RuneAsInt: the compiler gives %s.%s the default type %s", e.KeyPath, e.Name, r.Stdout)
-					continue
-				}
-				if r.BuildOK {
-					c.DisagreeChk++
-				}
-			}
-			c.Fail(trigRune, modeRune, replayCase{Invariant: "RuneAsInt", Table: e.Table, Rel: e.Rel, Plat: e.Plat, File: e.File, Key: e.Key, Name: e.Name, Fact: e})
 		}
 		for _, id := range v.Inexact {
 			e := entries[id]
@@ -373,8 +328,17 @@ func run(c *fw.Ctx) error {
 	sort.Strings(inexactNames)
 	inexactNames = uniq(inexactNames)
 	c.Exhaustive = true
+	// observation only (not checked): untyped rune constants re-materialised with token INT
+	nRune := 0
+	for _, f := range fs {
+		for i := range f.Entries {
+			if e := &f.Entries[i]; e.Form == "lit" && e.Real.CKind == "rune" && e.Tok == "INT" {
+				nRune++
+			}
+		}
+	}
 	c.Extra["facts"] = map[string]any{"entries": nE, "wrapper_methods": nM, "units": len(fs), "expect_facts_read_by_tlc": tot.Expects, "self_entries_skipped": skipped,
-		"table_groups": tot.Groups, "table_groups_judged_for_completeness": tot.JudgedGroups, "untyped_rune_constants_bound_as_INT": nRune}
+		"table_groups": tot.Groups, "table_groups_judged_for_completeness": tot.JudgedGroups, "observation_untyped_rune_constants_bound_as_INT": nRune}
 	c.Extra["shards"] = len(names)
 	c.Extra["time_extract_s"] = tExtract.Seconds()
 	c.Extra["time_tlc_wall_s"] = tTLC.Seconds()
@@ -463,33 +427,7 @@ func runShard(c *fw.Ctx, s *shard) (*verdict, time.Duration, error) {
 		os.MkdirAll(d, 0o755)
 		os.WriteFile(d+"/"+s.name+".ndjson", buf.Bytes(), 0o644)
 	}
-	var v *verdict
-	var perr error
-	res, err := c.TLC(fw.TLCOpts{Dir: "spec/bind", Module: "Bindings", Cfg: "facts.cfg", Workers: 1, HeapMB: 3000, Timeout: 5 * time.Minute,
-		Files: map[string][]byte{"facts.ndjson": buf.Bytes(), "facts.cfg": cfg()},
-		OnBeh: func(r json.RawMessage) {
-			var x verdict
-			if err := json.Unmarshal(r, &x); err != nil {
-				perr = err
-				return
-			}
-			v = &x
-		}})
-	if err != nil {
-		return nil, 0, err
-	}
-	if perr != nil {
-		return nil, 0, perr
-	}
-	if v == nil {
-		return nil, 0, fmt.Errorf("TLC printed no verdict:\n%s", tail(res.Output))
-	}
-	bad := len(v.KeyWellFormed) + len(v.NameIdentity) + len(v.ClassAgrees) + len(v.VarsByAddress) + len(v.ConstExact) + len(v.NoExtras) +
-		len(v.Complete) + len(v.WrapperEntry) + len(v.WrapperMismatch) + len(v.WrapperForwards) + len(v.WrapperImplements) + len(v.Compiles)
-	if (res.Violated != "") != (bad > 0) {
-		return nil, 0, fmt.Errorf("TLC verdict (%q) and the violator sets (%d) disagree:\n%s", res.Violated, bad, tail(res.Output))
-	}
-	return v, res.Wall, nil
+	return bindfacts.RunTLC(c, "stdlib", buf.Bytes())
 }
 
 func tail(s string) string {
